@@ -49,8 +49,15 @@ def main():
         res["error"] = "front end: " + d["error"][:160]
         print(json.dumps(res))
         return
+    tops = [rm["top"] for rm in d["modules"]]
     for rm in d["modules"]:
         m = dict(top=rm["top"])
+        if tops.count(rm["top"]) > 1:
+            # one module elaborated with several parameter sets: `tvdump clif <top>` builds only one of them
+            m["verdict"] = "unsupported"
+            m["why"] = "several elaborations of this module in the file (parameter overrides)"
+            res["modules"].append(m)
+            continue
         if not rm["supported"]:
             m["verdict"] = "rtl_unsupported"
             m["why"] = rm["reason"][:100]
